@@ -56,8 +56,8 @@ func c06Judge(k c06Case) *vlib.Failure {
 		return vlib.Failf("middleware built from Config() answers request #%d (%s, debug=%t) differently; Config() = %+v", i%len(suite), suite[i%len(suite)], i >= len(suite), *c1)
 	}
 	m3 := new(cors.Middleware)
-	cfg3 := k.Cfg.Config()
-	if err := m3.Reconfigure(&cfg3); err != nil {
+	// the very same Config value that NewMiddleware received (by value: its slices are shared) goes to Reconfigure
+	if err := m3.Reconfigure(&cfg); err != nil {
 		return vlib.Failf("zero-value middleware rejects a configuration that NewMiddleware accepts: %v", err)
 	}
 	if i := firstDiff(want, observeBoth(m3, suite)); i >= 0 {
